@@ -135,9 +135,6 @@ func execute(p *PropDef, tape *simrt.Tape, tier, variant string) *Outcome {
 	if cfg.Trace == 0 {
 		cfg.Trace = 64
 	}
-	if os.Getenv("VERIF_DUMP_TRACE") != "" {
-		cfg.Trace = 20_000_000
-	}
 	res := simrt.Run(theT, tape, cfg, func(w *simrt.World) {
 		c.W = w
 		start := time.Now()
@@ -509,9 +506,6 @@ func workerMain(t *testing.T) {
 		tape := simrt.NewTape(runSeed)
 		out := execute(p, tape, tier, variant)
 		close(stop)
-		if dp := os.Getenv("VERIF_DUMP_TRACE"); dp != "" {
-			os.WriteFile(fmt.Sprintf("%s.%d", dp, idx), []byte(strings.Join(out.Res.Trace, "\n")), 0644)
-		}
 		res.Runs++
 		res.Variants[variant]++
 		d := fmt.Sprintf("%016x", out.Res.Digest)
@@ -604,15 +598,6 @@ func workerMain(t *testing.T) {
 		res.Violations = append(res.Violations, *seenSig[s])
 	}
 	res.WallS = time.Since(t0).Seconds()
-	if os.Getenv("VERIF_DUMP_GOROUTINES") != "" {
-		buf := make([]byte, 64<<20)
-		n := runtime.Stack(buf, true)
-		os.WriteFile(os.Getenv("VERIF_DUMP_GOROUTINES"), buf[:n], 0644)
-		var ms runtime.MemStats
-		runtime.GC()
-		runtime.ReadMemStats(&ms)
-		fmt.Fprintf(os.Stderr, "goroutines=%d heap_after_gc=%dMB\n", runtime.NumGoroutine(), ms.HeapAlloc>>20)
-	}
 	b, _ := json.Marshal(res)
 	if outPath != "" {
 		if err := os.WriteFile(outPath, b, 0644); err != nil {
